@@ -40,22 +40,24 @@ InitState(G) == [mayFit |-> [f \in FsOf(G) |-> DepSeq(G, f) = <<>>],
                  log |-> <<>>]
 
 RECURSIVE DoFit(_, _, _, _, _), CallbackAll(_, _, _, _, _, _), FitCall(_, _, _, _, _, _)
-FitCall(G, dc, norefit, s, f, d) ==
+FitCall(G, dc, mut, s, f, d) ==
     LET s1 == [s EXCEPT !.xy[f] = d]
-    IN IF s1.mayFit[f] THEN DoFit(G, dc, norefit, s1, f) ELSE s1
-DoFit(G, dc, norefit, s, f) ==
+    IN IF s1.mayFit[f] THEN DoFit(G, dc, mut, s1, f) ELSE s1
+DoFit(G, dc, mut, s, f) ==
     LET newpv == [kind |-> "fit", data |-> s.xy[f], conds |-> [c \in DepSet(G, f) |-> s.pv[c]]]
-    IN CallbackAll(G, dc, norefit, [s EXCEPT !.pv[f] = newpv, !.log = Append(@, f)], f,
+    IN CallbackAll(G, dc, mut, [s EXCEPT !.pv[f] = newpv, !.log = Append(@, f)], f,
                    Dependents(G, dc, f))
-CallbackAll(G, dc, norefit, s, c, ds) ==
+CallbackAll(G, dc, mut, s, c, ds) ==
     IF ds = <<>> THEN s
     ELSE LET d  == Head(ds)
              s1 == [s EXCEPT !.fc[d] = @ \cup {c}]
-             ok == s1.fc[d] \subseteq DepSet(G, d)               \* SubsetAsInCode
+             ok == IF mut = "subsetreversed"
+                   THEN s1.fc[d] \subseteq DepSet(G, d)         \* the test as written before fix e6 (always true)
+                   ELSE DepSet(G, d) \subseteq s1.fc[d]         \* all conditioners have reported in
              s2 == IF ok THEN [s1 EXCEPT !.mayFit[d] = TRUE] ELSE s1
-             s3 == IF ok /\ s2.xy[d] # 0 /\ ~(norefit /\ s2.pv[d].kind = "fit")
-                   THEN FitCall(G, dc, norefit, s2, d, s2.xy[d]) ELSE s2
-         IN CallbackAll(G, dc, norefit, s3, c, Tail(ds))
+             s3 == IF ok /\ s2.xy[d] # 0 /\ ~(mut = "norefit" /\ s2.pv[d].kind = "fit")
+                   THEN FitCall(G, dc, mut, s2, d, s2.xy[d]) ELSE s2
+         IN CallbackAll(G, dc, mut, s3, c, Tail(ds))
 
 (* every function carries the parameters of a fit to data version d made after all its  *)
 (* conditioners got their current parameters                                            *)
